@@ -15,6 +15,8 @@ func DeviceOf(fi os.FileInfo) uint64 {
 
 func CheckByID(id string) Check {
 	switch id {
+	case "C10":
+		return C10{}
 	case "C12":
 		return C12{}
 	}
